@@ -6,7 +6,7 @@ Proof: coq/Properties_C03.v (about the VM model).  Correspondence: the extracted
 interpreter on the same generated programs (listing, per-step trace, final observation).  Oracle: a direct
 interpreter of the documented scoping rules for the generated programs (no frames, no instruction set);
 the implementation's markers / VariableNotFound diagnostics must be what the rules say."""
-import json, os, re, sys
+import json, os, re, shutil, sys
 import vcommon as V
 import vmcommon as M
 from vmcommon import N, B, S, Var, Arr, Code, Nul, Un, Bin, E, Asg, Loc, Prog
@@ -258,6 +258,9 @@ class Oracle:
             self.scope(s[2], chain, ns)
         elif k == "spawn":
             self.pending.append((s[3], self.expr(s[1], chain, ns), s[2]))
+        elif k == "execvm":
+            # a script started from a file: like spawn, its argument is what was written left of execVM - nothing (nil) in the unary form
+            self.pending.append((s[3], None if s[1] is None else self.expr(s[1], chain, ns), s[2]))
         elif k == "setvar":
             self.ns.setdefault(s[1], {})[s[2].lower()] = self.expr(s[3], chain, ns)
         else:
@@ -354,9 +357,39 @@ def r_stmt(s):
         return E(Bin("do", Un("with", Nul(s[1])), r_block(s[2])))
     if k == "spawn":
         return E(Bin("spawn", r_expr(s[1]), r_block(s[2])))
+    if k == "execvm":
+        path = "/cv/" + s[4]
+        return E(Un("execVM", S(path))) if s[1] is None else E(Bin("execVM", r_expr(s[1]), S(path)))
     if k == "setvar":
         return E(Bin("setVariable", Nul(s[1]), Arr(S(s[2]), r_expr(s[3]))))
     raise ValueError(s)
+
+
+FILEDIR = [None]     # where the files of execVM'd scripts are written for this run
+
+
+def execvm_sites(x, out):
+    if isinstance(x, (list, tuple)):
+        if len(x) == 5 and x[0] == "execvm":
+            out.append(x)
+        for y in x:
+            execvm_sites(y, out)
+    return out
+
+
+def write_children(asts, drv):
+    """every execVM site names a file: the text of its block, as the model driver prints a program, written where the site's path points"""
+    sites = []
+    for a in asts:
+        execvm_sites(a, sites)
+    if not sites:
+        return 0
+    os.makedirs(FILEDIR[0], exist_ok=True)
+    rc, out, err = V.run_lines_parallel([drv], [";0;0;10000;150\t" + Prog(*[r_stmt(st) for st in s_[2]]) for s_ in sites])
+    for s_, o in zip(sites, out):
+        with open(os.path.join(FILEDIR[0], s_[4]), "wb") as fh:
+            fh.write(V.unhx(o.split("\t")[0]))
+    return len(sites)
 
 
 def render(prog):
@@ -660,6 +693,44 @@ class ScopeGen(M.Gen):
         return pre + self.wrap(outer, [("loc", c("_xy"), ("lit", self.fresh()))] + sp + [self.mark_read([c("_abc")])], {}) \
             + [self.mark_read([c("_abc")])]
 
+    def template_execvm(self, outer, unary, source, n):
+        """a script started from a file sees none of the starter's locals: not the ordinary ones, not the starter's _this / _x / _exception;
+        its _this is what was written left of execVM (nil in the unary form). The starter has a _this of its own from: a call with
+        arguments, being spawned itself, a plain local assignment, or has none (top)."""
+        self.reset()
+        c = self.case
+        r = self.rng
+        pre = [("loc", c("_abc"), ("lit", self.fresh())), ("asg", c("gv"), ("lit", self.fresh()))]
+        sid = 2 if source == "spawn" else 1
+        saved = (self.script, self.mid)
+        self.script, self.mid = sid, 0
+        body = [("mark", self.next_mark(), [("isnil", c("_this")), ("var", c("_this")), ("isnil", c("_abc")), ("isnil", c("_xy"))]),
+                ("mark", self.next_mark(), [("isnil", c("_x")), ("isnil", c("_exception")), ("isnil", c("_forEachIndex")), ("isnil", c("_q"))]),
+                ("asg", c("_abc"), ("lit", self.fresh())),
+                ("asg", c("sg%d" % sid), ("lit", self.fresh())),
+                ("mark", self.next_mark(), [("var", c("_abc")), ("getvar", "missionNamespace", c("sg%d" % sid), -1)])]
+        self.script, self.mid = saved
+        arg = None if unary else r.choice([("lit", self.fresh()), ("arr", [("var", c("_abc")), ("lit", self.fresh())])]
+                                          + ([("var", c("_this"))] if source != "top" else []))
+        site = [("execvm", arg, body, sid, "c%05d.sqf" % n)]
+        if source == "spawn":
+            self.script, self.mid = 1, 100      # the starter is script 1: its markers carry that number
+        inner = [("loc", c("_xy"), ("lit", self.fresh()))] + site + [self.mark_read([c("_abc"), c("_xy")])]
+        wrapped = self.wrap(outer, inner, {}) if outer else inner
+        self.script, self.mid = saved
+        if source == "callarg":
+            mid = [("call", [("loc", c("_q"), ("lit", self.fresh()))] + wrapped, ("arr", [("lit", self.fresh()), ("lit", self.fresh())]))]
+        elif source == "assign":
+            mid = [("asg", c("_this"), ("lit", self.fresh()))] + wrapped
+        elif source == "spawn":
+            self.script, self.mid = 1, 0
+            sb = [self.mark_read([c("_this")])] + wrapped + [self.mark_read([c("_this")])]
+            self.script, self.mid = saved
+            mid = [("spawn", ("arr", [("lit", self.fresh())]), sb, 1)]
+        else:
+            mid = wrapped
+        return pre + mid + [self.mark_read([c("_abc")])]
+
     def template_iteration(self, kind):
         """a binding made in one iteration must be gone in the next"""
         self.reset()
@@ -835,6 +906,16 @@ def main(replay=None):
         for rep in range(4 * reps):
             for o in CONSTRUCTS:
                 cases.append(("spawn", gen.template_spawn(o)))
+        nx = 0
+        for rep in range(reps):
+            for o in [None] + CONSTRUCTS:
+                for source in ("callarg", "assign", "spawn", "top"):
+                    for unary in (True, False):
+                        if o is not None and not thorough and (nx % 3) and source == "top":
+                            nx += 1
+                            continue
+                        nx += 1
+                        cases.append(("execvm(oracle only)", gen.template_execvm(o, unary, source, nx)))
         for rep in range(6 * reps):
             for kd in LOOPS:
                 cases.append(("iteration", gen.template_iteration(kd)))
@@ -843,8 +924,12 @@ def main(replay=None):
         for _ in range(1500 if thorough else 150):
             cases.append(("params(oracle only)", gen.params_program()))
 
+    FILEDIR[0] = os.path.join(V.BUILD, "c03-files-%d" % os.getpid())
+    os.environ["VH_FILES"] = FILEDIR[0]
+    nfiles = write_children([ast for kind, ast in cases], drv)
     progs = [render(ast) for kind, ast in cases]
     res = M.run_programs(himpl, drv, progs)
+    shutil.rmtree(FILEDIR[0], ignore_errors=True)
 
     kinds, distinct, samples = {}, set(), []
     totals = {}
@@ -885,7 +970,7 @@ def main(replay=None):
             run.violation("scoping rules violated: " + why, rep)
             continue
         # 2. correspondence with the model (params is not an operator of the model: rules only)
-        if kk.startswith("params"):
+        if kk.startswith("params") or kk.startswith("execvm"):
             oracle_only += 1
             continue
         mo = (d.get("m_final", ""), d.get("m_trace", ""))
@@ -919,7 +1004,9 @@ def main(replay=None):
                        "private x =, private then assign}; the same pairs for a global under 6 with-do selections x {assign, setVariable "
                        "ui/mission, read} observed through the plain read, isNil and getVariable on both namespaces; spawned readers inside "
                        "every construct; per-iteration clearing for the 7 loops; random nestings of depth 3-4 with throw / exitWith / spawn; "
-                       "params programs (rules only). A case is non-trivial when at least two scopes are open below the main scope at some "
+                       "params programs (rules only); scripts started with execVM from a file (unary and with an argument) out of every construct, by a starter "
+                       "that has a _this of its own (called with arguments, spawned, plainly assigned) or none: the started script sees none of the starter's "
+                       "locals and its _this is the argument or nil (rules only). A case is non-trivial when at least two scopes are open below the main scope at some "
                        "point and a marker is logged; distinct by program text. Verdict per program: (1) markers per script, and the "
                        "sequence of VariableNotFound / assigning-nil diagnostics, against a direct interpreter of the scoping rules; "
                        "(2) model vs implementation: listing, per-step trace, final observation."
